@@ -104,7 +104,9 @@ class C10(BaseCheck):
           'producer greenlets issuing Schedule/cancel/sleep ops at seeded virtual instants '
           '(incl. grid-aligned boundary class, past deadlines, ties, cancel of head / of run '
           'action / twice); non-trivial = at least one action ran and one race class was hit; '
-          'distinct by (r, set of race classes, size bucket, boundary?)')
+          'distinct by (r, set of race classes, size bucket, boundary?). Each worker additionally runs one short '
+          'real-clock anchor on gevent\'s real libev loop (once / not early / cancelled-in-time never runs; lateness '
+          'not judged)')
   ANCHORS = ('scales.timer_queue:TimerQueue._TimerWorker',
              'scales.timer_queue:TimerQueue.Schedule')
   REQUIRED_ANCHORS = ANCHORS
@@ -146,6 +148,25 @@ class C10(BaseCheck):
       if not any(v['kind'] == kind for v in r.violations):
         errs.append('C10 oracle misses a %s history' % kind)
     return errs
+
+  def finish(self, env, tier):
+    """Real-clock anchor: one short run per worker on gevent's real libev loop (separate
+    process, no virtual time).  Judged: at most once, exactly once unless cancelled, never
+    early, cancelled-in-time never runs.  Lateness is only reported."""
+    import json, os, subprocess
+    tool = os.path.join(os.path.dirname(os.path.dirname(os.path.abspath(__file__))), 'tools', 'realclock_timerqueue.py')
+    try:
+      r = subprocess.run(['/venv/bin/python', tool, str(os.getpid() % 100000)], capture_output=True, text=True,
+                         timeout=60, env=dict(os.environ))
+      d = json.loads(r.stdout.strip().splitlines()[-1])
+    except Exception as e:  # noqa: the anchor is auxiliary; its failure to run is not a verdict
+      return {'real_clock_runs_failed': 1}
+    res = {'real_clock_runs': 1, 'real_clock_actions': d['actions'], 'real_clock_actions_run': d['ran']}
+    bad = {k: d[k] for k in ('twice', 'early', 'never', 'cancelled_ran') if d[k]}
+    if bad:
+      res['__violations__'] = [{'kind': 'real-clock:' + '+'.join(sorted(bad)), 'facts': {'res': d['resolution']},
+                                'msg': 'on the real clock/libev loop: %r (seed %d)' % (bad, d['seed']), 'witness': d}]
+    return res
 
   def run_case(self, env, rng, idx, tier):
     import gevent
